@@ -1,0 +1,11 @@
+//go:build verif
+
+package edit
+
+import "src.elv.sh/pkg/cli/tk"
+
+// Verification harnesses for gvc (/verif): compiled only with the build tag
+// "verif", never called. Property C28: the kill and move wrappers applied to an
+// arbitrary mover that satisfies the pureMover contract.
+func verifKill(m pureMover, buf *tk.CodeBuffer) { makeKill(m)(buf) }
+func verifMove(m pureMover, buf *tk.CodeBuffer) { makeMove(m)(buf) }
